@@ -15,7 +15,18 @@ from ref import conj, decmodel
 
 POOL = ["K+", "K-", "pi0", "K_S0", "D*(2010)+", "anti-B0", "Lambda_b0", "nu_e", "Foo", "My_alias+", "gamma", "anti-Xi_c0"]
 PDG_POOL = ["K+", "K-", "K(S)0", "pi0", "B~0", "D*(2010)+", "Lambda(b)0", "nu(e)", "NotAName"]
-METAS = [{}, {"model": "SVS", "model_params": [1.0, "w"]}, {"model": "X", "study": {"a": [1, {"b": None}]}, "zfit": {"B0": "gauss"}}]
+METAS = [{}, {"model": "SVS", "model_params": [1.0, "w"]}, {"model": "X", "study": {"a": [1, {"b": None}]}, "zfit": {"B0": "gauss"}},
+         # values that a normalising export/import would rewrite: None, empty containers, zero, False
+         {"model": "PHSP", "model_params": None}, {"model": None, "model_params": 0, "flag": False, "empty": "", "lst": [], "tup": (1, 2)}]
+
+
+def _exact(x):
+    """Type-exact rendering of a metadata dict (None / "" / 0 / False / [] / () all differ)."""
+    if isinstance(x, dict):
+        return "{" + ", ".join(f"{k!r}: {_exact(v)}" for k, v in sorted(x.items(), key=lambda kv: repr(kv[0]))) + "}"
+    if isinstance(x, (list, tuple)):
+        return type(x).__name__ + "(" + ", ".join(_exact(v) for v in x) + ")"
+    return f"{type(x).__name__}:{x!r}"
 
 
 def check_names(names, pdg):
@@ -82,8 +93,12 @@ def check_mode(fs, mi):
         fails.append(("mode-daughters", f"DecayMode({fs}).charge_conjugate() has daughters {dict(cc.daughters)}, expected {dict(exp)}"))
     if cc.bf != 0.125:
         fails.append(("mode-bf", f"branching fraction {cc.bf} after conjugation, expected 0.125"))
-    if cc.metadata != meta:
+    if _exact(cc.metadata) != _exact(meta):
         fails.append(("mode-metadata", f"metadata after conjugation {cc.metadata}, expected {meta}"))
+    else:
+        cc2 = cc.charge_conjugate()
+        if _exact(cc2.metadata) != _exact(meta):
+            fails.append(("mode-metadata-twice", f"metadata after conjugating twice {cc2.metadata}, expected {meta}"))
     if dm.to_dict() != before:
         fails.append(("mode-mutated", f"charge_conjugate() changed the original mode {before} -> {dm.to_dict()}"))
     return fails
